@@ -189,6 +189,7 @@ def impl_builtin(case):
         cost = _mk(case["score"])
         det = CBS(cost, threshold_scale=scale, level=case["level"], min_segment_length=m,
                   max_interval_length=case["mx"], growth_factor=case["g"])
+        det = core.reconfigure(det, case, "anomaly_score")
         # ndarray or DataFrame; fitted on the data, on a series of another length, or on an object overwritten in place
         # afterwards; the fitted detector may have been used on other data with the same index before
         data, nfit = core.fit_for(det, case, X, reps=1)  # circular binary segmentation is cubic in the interval length
